@@ -254,3 +254,13 @@ def pimap(fn, items, procs=None, chunksize=1):
     finally:
         pool.terminate()
         pool.join()
+
+
+def tmap(fn, items, threads=None):
+    """Ordered map on a thread pool (for subprocess-bound work; fn may be a closure)."""
+    from concurrent.futures import ThreadPoolExecutor
+    items = list(items)
+    if not items:
+        return []
+    with ThreadPoolExecutor(max_workers=threads or NCPU) as ex:
+        return list(ex.map(fn, items))
